@@ -43,6 +43,65 @@ import (
 //	            of executing the compiled functions beside the translation (Gen/PureSelftest.lean, checked when built)
 //	prefix mode (CreateUE): the statements before the first one that starts with a given text are translated and the
 //	            named locals returned; the remaining statements are pinned as text (`<fn>.tail : List String`)
+//
+// Extended grammar (groups marked `rich`: pure-nasprot; code in pure_nas.go; self-test pureselftest/rich.go). Everything
+// above stays as it is except switch and counted loops (refused in these groups). In addition:
+//
+//	pointers    *T for a named struct T is carried as Option T (none = nil). A pointer PARAMETER may be tested once, in
+//	            the prologue of the function (`if p == nil { …; return … }` after declarations and other such guards): the
+//	            translation is `match p with | none => … | some p => rest`, and in the rest p is the struct itself. A
+//	            pointer that was not guarded is dereferenced with Go.deref (nil = panic) at every p.f. Pointer values have
+//	            exactly one name: a pointer variable is assigned only from nil, new(T), &T{…} or the result of a listed
+//	            function (which may return only such values or its own local), never from another variable; the same
+//	            pointer is not passed twice in one call; `return p` of a parameter is refused. Pointer fields of structs
+//	            are read only (Go.deref). Hence the object behind a pointer variable is a value of that variable.
+//	state       a pointer parameter through which the function assigns (p.f = v, p.f.M() with a receiver-mutating M of an
+//	            imported group, passing p to a listed function that does) is a STATE parameter: the function returns
+//	            σ × Res ρ, σ = the objects behind the state parameters as they are when the function ends — by return, by
+//	            an error return or by a panic (every failing operation is bound with Go.bindS <state now>). Refused: two
+//	            parameters that could point to the object that is changed; a selected struct field that could.
+//	structs     a struct type is emitted with the fields some function of the group selects (whole values of these
+//	            types only move between translated functions, so the other fields cannot matter); a struct handed to a
+//	            library call keeps every field of plain data in full and sums up the others (pointers into trees the group
+//	            never looks into) as `rest_ : Go.Rest`. Embedded fields are selected by their own name only. [N]uint8 is
+//	            Bytes, as a whole value only (no index, slice, len).
+//	library     calls listed in the group's table (puLibFn) become fields of the record `Lib` emitted in the group's module,
+//	            typed from the Go signature; a function that makes one takes (L : Lib). Declared per call: the receiver is
+//	            replaced (recvMut), one slice argument is overwritten in place (inPlace), slice arguments that must be
+//	            visibly non-nil (nonNil), arguments the receiver keeps referring to (retain). fmt.Errorf(…) is `true`.
+//	in place    f(…, x) with x overwritten in place is `let x := (result).k`. Sound only if no other live name shares
+//	            storage with x: the translator computes, per function, classes of variables that MAY share storage
+//	            (assignment, slicing, conversion, field reads, append(a, …) with a, range, results / parameters of listed
+//	            functions by their own classes; all parameters whose carriers hold references, since the caller may have
+//	            passed overlapping storage; results of library calls, literals, make, new are fresh) and, along each
+//	            path in execution order, marks every other member of the class of x as overwritten from that point on;
+//	            reading a marked variable is refused, assigning it clears the mark. append(a, …) is an in-place write to
+//	            the spare capacity of a: the other members of a's class are marked. A parameter in the class makes the
+//	            function one that OVERWRITES ITS ARGUMENT (callers mark the argument and its class; the tie theorems say
+//	            nothing about the caller's octets afterwards — neither do the hand models). Statements reached on two
+//	            paths (the text after an `if` that returns in one branch) must be reached with the same knowledge.
+//	nil slices  the carrier does not distinguish nil from empty. `if p == nil { …return… }` in the prologue makes the slice
+//	            parameter p an Option Bytes; an argument for such a parameter, or for a library parameter declared
+//	            nonNil, must be visibly non-nil: a guarded parameter, a slice of one, a literal, make, append to one, a
+//	            library result declared non-nil, or a variable a listed callee has indexed unconditionally (b[1] in
+//	            GetSecurityHeaderType). Any other comparison with nil is refused.
+//	slices      x[:] is x. x[a:b] (constants) is accepted in one shape only — `y := x[a:b]` followed immediately by a
+//	            call-free statement that evaluates x[k], k ≥ b-1, or x[k:], k ≥ b, unconditionally — and translated as
+//	            Go.slice (panic unless b ≤ len x). Justification: if b ≤ len(x) Go yields the octets a..b. Otherwise Go
+//	            either panics at the slice expression (b > cap) or yields a slice that reaches into the spare capacity and
+//	            panics at the next statement (index beyond len); nothing observable lies between the two. cap(y) is
+//	            never observed: y can be read, indexed, re-sliced from a low bound, copied from; append(y, …) is treated
+//	            as an overwrite of everything that may share storage with y (above).
+//	append      v = append(a, xs...) / append(a, e…) with any a: the value a ++ xs (rule `in place` for the storage).
+//	range       `for _, v := range xs { … }` over a slice whose root variable the body does not mention: recursion over the
+//	            list (xs evaluated once), the body may return (Go.Flow.ret), break, continue and assign variables.
+//	copy        copy(x.f[:], src) into an array field only (an array is a value: Go.copy).
+//	library+    a variadic library function takes the list of its variadic operands; a call declared noReturn
+//	            (fatal.Fatalf) is a Res Unit the instantiation decides; x[a:b] is also accepted on a variable that only ever
+//	            holds a library result declared resExact (cap = len: the slice expression panics exactly when b > len).
+//	calls       pkg.F(…) of a listed function of another package; `return f(…)` with a multi-valued f; a receiver-mutating
+//	            method of an imported group inside an argument list is moved in front of the statement, accepted only if
+//	            the statement reads the receiver's root variable through other fields only (order of evaluation).
 func init() {
 	for _, g := range puGroups {
 		g := g
@@ -74,8 +133,8 @@ type puGroup struct {
 	// the extended grammar (pure_nas.go): pointers as Option, state behind pointer parameters, library calls through a
 	// group-local `Lib` record, structs trimmed to the fields the group accesses, in-place library calls, range loops
 	rich    bool
-	imports []string    // names of groups whose functions this group calls (their Gen module is imported, not re-emitted)
-	lib     []*puLibFn  // the library calls this group may make
+	imports []string   // names of groups whose functions this group calls (their Gen module is imported, not re-emitted)
+	lib     []*puLibFn // the library calls this group may make
 	// total library functions (interface-typed in Go): the carriers they are used at
 	libTotalSig map[string]puTotalSig
 }
@@ -192,19 +251,19 @@ type puFn struct {
 	body  []ast.Stmt // the translated statements (a prefix in prefix mode)
 	tail  []ast.Stmt
 	// rich groups (pure_nas.go): facts
-	state      []*types.Var          // pointer parameters whose object the function changes: returned as state, also on failure
-	nilable    map[*types.Var]bool   // slice parameters tested against nil in the prologue: carried as Option Bytes
-	clobbers   map[*types.Var]bool   // parameters whose storage the function may overwrite in place
-	idxParam   map[int]bool          // parameters p with p[k] evaluated unconditionally: not nil after a normal return
+	state      []*types.Var        // pointer parameters whose object the function changes: returned as state, also on failure
+	nilable    map[*types.Var]bool // slice parameters tested against nil in the prologue: carried as Option Bytes
+	clobbers   map[*types.Var]bool // parameters whose storage the function may overwrite in place
+	idxParam   map[int]bool        // parameters p with p[k] evaluated unconditionally: not nil after a normal return
 	usesLib    bool
 	classes    *puClasses
 	resAlias   map[int]bool
 	paramAlias [][2]int
 	// rich groups: translation state
-	bound  map[*types.Var]bool // guarded parameters, bound to the value behind the pointer / the non-nil slice
-	fx     puFx
-	curTop ast.Node // the statement (or condition) being translated, for order-of-evaluation checks
-	guards map[ast.Stmt]*types.Var
+	bound      map[*types.Var]bool // guarded parameters, bound to the value behind the pointer / the non-nil slice
+	fx         puFx
+	curTop     ast.Node // the statement (or condition) being translated, for order-of-evaluation checks
+	guards     map[ast.Stmt]*types.Var
 	forcedHigh map[*ast.SliceExpr]bool // x[a:b] where the next statement forces b ≤ len(x)
 }
 
@@ -332,6 +391,9 @@ func genPureGroupCtx(ld *puLoader, g *puGroup) (string, *puGroupCtx, error) {
 				ig = x
 			}
 		}
+		if in == puSelftestGroup.name {
+			ig = puSelftestGroup
+		}
 		if ig == nil {
 			return "", nil, fail("group %s imports unknown group %s", g.name, in)
 		}
@@ -370,7 +432,7 @@ func genPureGroupCtx(ld *puLoader, g *puGroup) (string, *puGroupCtx, error) {
 		var logRanges [][2]token.Pos
 		ast.Inspect(fd.Body, func(n ast.Node) bool {
 			if es, ok := n.(*ast.ExprStmt); ok {
-				if call, ok := es.X.(*ast.CallExpr); ok && c.isLogging(call) {
+				if call, ok := es.X.(*ast.CallExpr); ok && (c.isLogging(call) || c.isNoReturn(call)) {
 					logRanges = append(logRanges, [2]token.Pos{es.Pos(), es.End()})
 				}
 			}
@@ -612,6 +674,12 @@ func (c *puFn) facts() (mutRecv, monadic, usesExt bool, err error) {
 				case "encoding/binary.BigEndian.PutUint16":
 					monadic = true
 				}
+				if c.grp.g.rich && c.builtinCall(x, "copy") != nil && len(x.Args) == 2 {
+					// copy(x.f[:], …) into an array field of the receiver
+					if se, ok := x.Args[0].(*ast.SliceExpr); ok {
+						markAssign(se.X)
+					}
+				}
 				if id, ok := x.Fun.(*ast.Ident); ok && id.Name == "make" {
 					if _, ok := c.pkg.info.Uses[id].(*types.Builtin); ok && len(x.Args) >= 2 && !c.isConst(x.Args[1]) {
 						monadic = true
@@ -667,6 +735,26 @@ func init() {
 			{pkg: "tglib", file: "security.go", fn: "NASDecode"},
 			{pkg: "tglib", file: "packet.go", fn: "EncodeNasPduWithSecurity"},
 			{pkg: "tglib", file: "decode.go", fn: "GetNasPdu"},
+		}}
+	puGroups = append(puGroups, g)
+	register(g.name, func() error { return genPureGroups([]*puGroup{g}) })
+}
+
+func init() {
+	keysLib := []*puLibFn{
+		{key: "free5gclib/UeauCommon.GetKDFValue", field: "getKDFValue", inPlace: -1, resNonNil: []int{0}, resExact: []int{0},
+			doc: "HMAC-SHA-256 of FC (hex) and the parameters under key. ASSUMED: the result has no spare capacity (it is hmac's Sum(nil): 32 octets appended to nil), so kenc[16:32] panics exactly when the result is shorter than 32 octets"},
+		{key: "regexp.Compile", field: "regexpCompile", inPlace: -1,
+			doc: "(the compiled expression, err != nil)"},
+		{key: "(regexp.Regexp).FindStringSubmatch", field: "findStringSubmatch", inPlace: -1,
+			doc: "the leftmost match and its groups; nil (here: the empty list) if there is none"},
+		{key: "github.com/calee0219/fatal.Fatalf", field: "fatalf", inPlace: -1, noReturn: true,
+			doc: "ends the process"},
+	}
+	g := &puGroup{name: "pure-keys", ns: "Keys", rich: true, imports: []string{"pure-kdf"}, lib: keysLib,
+		targets: []puTarget{
+			{pkg: "tglib", file: "ranUe.go", fn: "RanUeContext.DerivateKamf"},
+			{pkg: "tglib", file: "ranUe.go", fn: "RanUeContext.DerivateAlgKey"},
 		}}
 	puGroups = append(puGroups, g)
 	register(g.name, func() error { return genPureGroups([]*puGroup{g}) })
